@@ -103,13 +103,14 @@ type SpecFunc struct {
 }
 
 type ContractSet struct {
+	TypeInvs map[string]string      // pkgpath.TypeName -> predicate name assumed of every non-nil pointer to it
 	Funcs map[string]*FuncContract // by Key()
 	Specs map[string]*SpecFunc     // by pkgpath + "." + name
 	Order []*FuncContract
 }
 
 func NewContractSet() *ContractSet {
-	return &ContractSet{Funcs: map[string]*FuncContract{}, Specs: map[string]*SpecFunc{}}
+	return &ContractSet{Funcs: map[string]*FuncContract{}, Specs: map[string]*SpecFunc{}, TypeInvs: map[string]string{}}
 }
 
 var clauseLine = regexp.MustCompile(`^\s*//\s?@(\+?)\s?(.*)$`)
@@ -152,6 +153,12 @@ func (cs *ContractSet) ParseContractText(text, path, pkgPath string) error {
 		where := fmt.Sprintf("%s:%d", path, rc.line)
 		word, rest := splitWord(rc.text)
 		switch word {
+		case "typeinv": // typeinv TypeName predName
+			fs := strings.Fields(rest)
+			if len(fs) != 2 {
+				return fmt.Errorf("%s: typeinv TypeName pred", where)
+			}
+			cs.TypeInvs[pkgPath+"."+fs[0]] = fs[1]
 		case "ufunc":
 			sf, err := parseSpecFunc("spec", rest+" := 0", pkgPath, where)
 			if err != nil {
